@@ -58,7 +58,8 @@ CONSTANTS
   EvUnknown,    \* BOOLEAN: also offer evidence against addresses the application does not know
   MaxRO,        \* read-only calls (CheckTx / Simulate / Query) offered per block phase
   ParamOwner,   \* the account the ACL names as owner of the pos parameters
-  ParamVals     \* values offered for pos/MaxValidators by "setparam" transactions
+  ParamVals,    \* values offered for pos/MaxValidators by "setparam" transactions
+  MaxExports    \* how many export/import restarts the environment may take
 
 FEE  == N + 1
 POOL == N + 2
@@ -112,7 +113,7 @@ PreGenesis ==
     \* block begun next, vs[3] the one after (where EndBlock's updates land)
     vs |-> << [v \in Users |-> 0], [v \in Users |-> 0], [v \in Users |-> 0] >>,
     \* bookkeeping of the environment / ghosts
-    ntx |-> 0, next |-> 0, nro |-> 0,
+    ntx |-> 0, next |-> 0, nro |-> 0, nexp |-> 0, blocks |-> 0,
     \* digests of the real stores (auth store; all other stores); only the trace monitor sets them
     dAuth |-> "", dRest |-> "",
     minted |-> 0, burned |-> 0, donated |-> 0, fees |-> 0,
@@ -368,7 +369,7 @@ FoldEvidence(s, evs) ==
   IN go(s, 1)
 
 BeginBlock(s, a) ==
-  LET s0 == [s EXCEPT !.height = @ + 1, !.time = @ + a.dt, !.phase = "begun", !.ntx = 0, !.next = 0, !.nro = 0,
+  LET s0 == [s EXCEPT !.height = @ + 1, !.blocks = @ + 1, !.time = @ + a.dt, !.phase = "begun", !.ntx = 0, !.next = 0, !.nro = 0,
                       !.lastRes = "n/a", !.jailedNow = {}, !.slashLog = << >>]
       s1 == IF s0.height > 1 THEN [RewardFromFees(s0) EXCEPT !.fees = 0] ELSE s0
       s2 == MintAwards(s1)
@@ -476,6 +477,35 @@ InitChain(s) ==
 
 Commit(s) == [s EXCEPT !.phase = "committed", !.nro = 0]
 
+\* The chain is stopped after a Commit, its state exported (pos.ExportGenesis, gov ExportGenesis, all
+\* accounts with the current supply) and a NEW chain is started from the export: fresh database,
+\* height 0, genesis time = the current block time, pos.InitGenesis with Exported = TRUE.
+\* What survives is what the export carries: validators, previous-state powers (returned as the
+\* InitChain updates), signing infos, missed-block entries, parameters, previous proposer, balances.
+\* What does not: queued awards and burns (the environment only exports with empty queues), the
+\* address->pubkey relation of validators that no longer exist, the order inside queue slots.
+ExportImport(s) ==
+  LET gv == {v \in Users : s.val[v].ex}
+      pv == {v \in Users : s.prev[v] # -1}
+      upd == {<< v, s.prev[v] >> : v \in pv}
+      set == [v \in Users |-> IF v \in pv THEN s.prev[v] ELSE 0]
+      unst == {v \in gv : s.val[v].status = Unstaking}
+      Ord(S) == LET RECURSIVE ord(_)
+                    ord(T) == IF T = {} THEN << >> ELSE LET m == CHOOSE x \in T : \A y \in T : x <= y IN << m >> \o ord(T \ {m})
+                IN ord(S)
+      backedSum == SumOver({v \in gv : s.val[v].status \in {Staked, Unstaking}}, LAMBDA v : s.val[v].tokens)
+      s1 == [s EXCEPT !.phase = "committed", !.height = 0, !.ntx = 0, !.next = 0, !.nro = 0, !.lastRes = "n/a", !.nexp = @ + 1,
+                      !.pidx = {IdxKey(s.val[v], v) : v \in {u \in gv : s.val[u].status = Staked /\ ~s.val[u].jailed}},
+                      !.uq = {[t |-> t, ids |-> Ord({v \in unst : s.val[v].uat = t})] : t \in {s.val[v].uat : v \in unst}},
+                      !.pkrel = gv,
+                      !.awardQ = [a \in Accts |-> 0], !.burnQ = [v \in Users |-> -1],
+                      !.lastUpd = upd, !.updOk = TRUE,
+                      !.vs = << [v \in Users |-> 0], set, set >>,
+                      !.jailedNow = {}, !.slashLog = << >>]
+  IN IF s.bal[POOL] # 0 /\ s.bal[POOL] # backedSum THEN [s1 EXCEPT !.halt = "genesis-pool-differs-from-stake"]
+     ELSE IF \E v \in pv : v \notin gv THEN [s1 EXCEPT !.halt = "genesis-prev-power-unknown-validator"]
+     ELSE [s1 EXCEPT !.bal = [@ EXCEPT ![POOL] = backedSum]]
+
 ExtAward(s, a) == [s EXCEPT !.awardQ = [@ EXCEPT ![a.to] = @ + a.amt], !.next = @ + 1]
 ExtBurn(s, a) ==
   IF "BurnNilDec" \in Dev /\ s.burnQ[a.from] = -1 THEN [s EXCEPT !.next = @ + 1]
@@ -510,6 +540,7 @@ Step(s, a) ==
     [] a.a = "ExtBurn"    -> ExtBurn(s, a)
     [] a.a = "EndBlock"   -> EndBlock(s)
     [] a.a = "Commit"     -> Commit(s)
+    [] a.a = "ExportImport" -> ExportImport(s)
 
 -----------------------------------------------------------------------------
 (* the environment: which actions Tendermint / users / other modules may take *)
@@ -559,10 +590,13 @@ Acts(s) ==
   IF s.halt # "" THEN {}
   ELSE CASE s.phase = "init" -> {[a |-> "InitChain"]}
          [] s.phase = "committed" ->
-              (IF s.height >= MaxHeight THEN {}
+              (IF MaxExports > s.nexp /\ s.height >= 1 /\ s.blocks < MaxHeight
+                  /\ (\A x \in Accts : s.awardQ[x] = 0) /\ (\A v \in Users : s.burnQ[v] = -1)
+               THEN {[a |-> "ExportImport"]} ELSE {})
+              \cup (IF s.blocks >= MaxHeight THEN {}
                ELSE {[a |-> "BeginBlock", dt |-> d, prop |-> p, votes |-> vt, evs |-> ev] :
                       d \in Dts, p \in Props, vt \in VoteChoices(s), ev \in EvChoices(s)})
-              \cup (IF s.height >= MaxHeight THEN {} ELSE ROChoices(s))
+              \cup (IF s.blocks >= MaxHeight THEN {} ELSE ROChoices(s))
          [] s.phase = "begun" ->
               {[a |-> "EndBlock"]}
               \cup (IF s.ntx < MaxTx THEN TxChoices(s) ELSE {})
